@@ -35,7 +35,7 @@ CONFIGS = [("plain", None, False), ("bgzf", "standard", False), ("bgzf", "tiny",
 
 
 def plan(tier):
-    return {"cases": 96 if tier == "quick" else 960, "shards": 16,
+    return {"cases": 96 if tier == "quick" else 1920, "shards": 16,
             "shard_budget_s": 500 if tier == "quick" else 3300}
 
 
